@@ -24,6 +24,7 @@ EXPLANATION = (
     "the sentinel class defines every binary operator method, its reflected twin and the unary ones, each returning the sentinel, and the interpreted BinOp "
     "guard returns the sentinel rather than False - so a comparison with the result is false and does not raise."
     " Rules added after the sixth blind round: (R8.8 = R14.5 of C14) the descriptor of a descriptor-less JSON line derives from that line alone."
+    " Rules added after the seventh blind round: (R8.9) the sentinel class is instantiated exactly once in the whole package - the helpers recognise a missing field by identity, so a second instance left behind by a module split is a missing field no helper recognises; decided before every other rule, which are not evaluated when it fails."
 )
 RULE_SUMMARY = ("the table is enumerated exhaustively (ops x positions x kinds x engines); a cell is non-trivial when its "
                 "outcome required evaluating a source method or a lambda body; distinct = distinct cells")
